@@ -14,6 +14,7 @@ from vf.xutil import concrete
 PROPERTY = "C17"
 FUNCTIONS = ["trie.utils.db.ScratchDB.__getitem__", "__setitem__", "__delitem__", "__contains__", "copy", "batch_commit"]
 ASSUMPTIONS = [
+    "exit by exception: an ordinary Exception in half of the partitions, a BaseException that is not an Exception (like KeyboardInterrupt) in the other half",
     "wrapped database is a dict subclass (CountingDict) that never fails; failing commits are C04/C05's subject",
     "keys range over {0,1,2} (hashable ints, realised by dict hashing); values are unconstrained symbolic ints",
     "copy() is only constrained on keys whose latest buffered action is not a delete (the statement speaks of reads and membership for read-through)",
@@ -33,6 +34,10 @@ LAST_REASON = ""
 
 class _Abort(Exception):
     pass
+
+
+class _HardAbort(BaseException):
+    """an exit by exception that is not an `Exception` (as KeyboardInterrupt / SystemExit / GeneratorExit would be)"""
 
 
 def configure(cfg):
@@ -72,7 +77,7 @@ def _body(bvals, ops, do_deletes, exc_at):
         with sdb.batch_commit(do_deletes=do_deletes):
             for j, (kind, key, val) in enumerate(ops):
                 if j == exc_at:
-                    raise _Abort()
+                    raise (_HardAbort() if CFG.get("hard") else _Abort())
                 if kind == 0:
                     sdb[key] = val
                     latest[key] = ("set", val)
@@ -121,8 +126,8 @@ def _body(bvals, ops, do_deletes, exc_at):
                 if wrapped.writes or wrapped.deletes or dict(wrapped) != before:
                     return _fail(f"wrapped db written during the batch at op {j}")
             if len(ops) == exc_at:
-                raise _Abort()
-    except _Abort:
+                raise (_HardAbort() if CFG.get("hard") else _Abort())
+    except (_Abort, _HardAbort):
         aborted = True
     if aborted:
         if dict(wrapped) != before or wrapped.writes or wrapped.deletes:
@@ -209,13 +214,13 @@ def jobs(tier):
         for mask, nkeys in ((0, 2), (1, 2), (2, 2), (3, 2), (5, 3)):
             out.append({"fn": "h_batch", "cfg": {"mask": mask, "maxops": 0, "first": None, "nkeys": nkeys}, "pct": 300, "ppt": 20})
             for kind in range(5):
-                out.append({"fn": "h_batch", "cfg": {"mask": mask, "maxops": 2, "first": [kind, None], "nkeys": nkeys}, "pct": 600, "ppt": 20})
+                out.append({"fn": "h_batch", "cfg": {"mask": mask, "maxops": 2, "first": [kind, None], "nkeys": nkeys, "hard": bool((mask + kind) % 2)}, "pct": 600, "ppt": 20})
     else:
         for mask in (0, 5, 7):
             out.append({"fn": "h_batch", "cfg": {"mask": mask, "maxops": 0, "first": None}, "pct": 300, "ppt": 20})
             for kind in range(5):
                 for key in range(3):
-                    out.append({"fn": "h_batch", "cfg": {"mask": mask, "maxops": 3, "first": [kind, key]}, "pct": 1500, "ppt": 20})
+                    out.append({"fn": "h_batch", "cfg": {"mask": mask, "maxops": 3, "first": [kind, key], "hard": bool((kind + key) % 2)}, "pct": 1500, "ppt": 20})
     out.append({"fn": "r_batch", "cfg": {"mask": 7, "maxops": 2, "first": None}, "pct": 120, "ppt": 20, "kind": "reach"})
     return out
 
